@@ -108,6 +108,7 @@ def solo(inner, case):
 
 class CrossTalk(SubCheck):
     single_outcome_ok = True
+    isolate = True      # every pair in a child forked for it (mc.core.run_case_isolated): the history IS the pair
 
     def __init__(self, inner, tier, seed=0):
         self.inner = inner
